@@ -4,6 +4,7 @@ import TxV.Drv.C13
 import TxV.Drv.Socks
 import TxV.Drv.C20
 import TxV.Drv.C15
+import TxV.Drv.C14
 open TxV.Drv
 
 def main (args : List String) : IO UInt32 := do
@@ -15,5 +16,6 @@ def main (args : List String) : IO UInt32 := do
   | ["Socks"] => loop stdin stdout (none : Option TxV.Socks.M) Socks.step; return 0
   | ["C20"] => loop stdin stdout ({} : C20.St2) C20.step; return 0
   | ["C15"] => loop stdin stdout ({} : C15.St2) C15.step; return 0
+  | ["C14"] => loop stdin stdout () C14.step; return 0
   | ["Ctl"] => loop stdin stdout ({} : Ctl.St) Ctl.step; return 0
   | _ => IO.eprintln "usage: driver <property-id>"; return 2
